@@ -22,12 +22,13 @@ const c14Keys = 8 // six ordinary keys and the two the core itself reads from th
 
 const c14Ordinary = 6
 
-// c14StorePromotion: opt-in (VERIF_C14B_STORE_PROMOTION=1). Without it the generator never lets the
-// root role's own vars define lhc_period / pdp_n_hbf_per_tf and never defines them in the store's
-// defaults only: in those placements the unchanged core (environment.go, before START_ACTIVITY) copies
-// the store value into the root role's vars, where it outranks the root's own var and every
-// workflow-level default (witness and fix: see the report); with the flag every placement is driven.
-func c14StorePromotion() bool { return os.Getenv("VERIF_C14B_STORE_PROMOTION") != "" }
+// c14StorePromotion (default on; VERIF_C14B_STORE_PROMOTION=0 switches it off): the generator also lets
+// the root role's own vars define lhc_period / pdp_n_hbf_per_tf and defines them in the store's defaults
+// without the store's vars. In those placements the core (environment.go, before START_ACTIVITY)
+// deliberately copies the store value into the root role's vars, where it outranks the root's own var and
+// every workflow-level default: a known finding, reported under one canonical class per key
+// (after-start/store-value-copied-into-root-vars/<key>).
+func c14StorePromotion() bool { return os.Getenv("VERIF_C14B_STORE_PROMOTION") != "0" }
 
 type c14Task struct {
 	Path   string              `json:"path"`
@@ -238,10 +239,10 @@ func c14Resolve(sc *c14Scenario, tr *roleSpec, key string) (vals []string, src s
 	chain := tr.chain() // role, ancestors..., root
 	name := func(i int, p *roleSpec) string {
 		switch {
-		case i == 0:
-			return "role"
 		case p.parent == nil:
 			return "root"
+		case i == 0:
+			return "role"
 		default:
 			return fmt.Sprintf("anc%d", i)
 		}
@@ -304,10 +305,10 @@ func c14Decode(sc *c14Scenario, tr *roleSpec, key, val string) string {
 	for i, p := range tr.chain() {
 		if p.Name == at[1] || (p.parent == nil && at[1] == "root") {
 			switch {
-			case i == 0:
-				return at[0] + "@role"
 			case p.parent == nil:
 				return at[0] + "@root"
+			case i == 0:
+				return at[0] + "@role"
 			default:
 				return fmt.Sprintf("%s@anc%d", at[0], i)
 			}
@@ -545,8 +546,32 @@ type c14CallEvent struct {
 // call hooks see at before_/after_START_ACTIVITY and at STOP, and the three maps GetEnvironment returns.
 func c14StartPhase(c *vlib.Ctx, s *coresim.Sim, sc *c14Scenario, envID string, caseID int64, obs *c14Obs, winners map[string]bool) {
 	idx := sc.Index
-	viol := func(where, want, got, detail string) {
-		c.Violation("PRECEDENCE", fmt.Sprintf("after-start/%s/want=%s,got=%s", where, want, got), fmt.Sprintf("%s [scenario %d]", detail, idx), caseID, obs)
+	// storeCopy: the value the core copies into the root role's vars before START_ACTIVITY (store vars over
+	// store defaults), for the two keys it does that for.
+	storeCopy := func(key string) (string, bool) {
+		if key != "lhc_period" && key != "pdp_n_hbf_per_tf" {
+			return "", false
+		}
+		if v, ok := sc.EnvVars[key]; ok {
+			return v, true
+		}
+		v, ok := sc.EnvDefaults[key]
+		return v, ok
+	}
+	// violAt reports a mismatch. One family gets a canonical class: the value seen is the copied store value
+	// and it displaced what ONLY a copy in the root role's vars can displace - the root's own var, a default of
+	// any level, or nothing at all in the vars map. A user value, a descendant role's own var, the user-vars
+	// map and the defaults map are out of its reach: those keep their fine-grained class.
+	violAt := func(where, key, wantSrc, wantLabel string, gotVal string, gotPresent bool, gotLabel, detail string) {
+		class := fmt.Sprintf("after-start/%s/want=%s,got=%s", where, wantLabel, gotLabel)
+		if sv, ok := storeCopy(key); ok && gotPresent && gotVal == sv && where != "uservars-map" && where != "defaults-map" {
+			reach := wantSrc == "vars@root" || strings.HasPrefix(wantSrc, "defaults@") || (wantSrc == "absent" && where == "vars-map")
+			if reach {
+				class = "after-start/store-value-copied-into-root-vars/" + key
+				detail = fmt.Sprintf("%s {seen at %s: want=%s, got=%s}", detail, where, wantLabel, gotLabel)
+			}
+		}
+		c.Violation("PRECEDENCE", class, fmt.Sprintf("%s [scenario %d]", detail, idx), caseID, obs)
 	}
 	control := func(op pb.ControlEnvironmentRequest_Optype) error {
 		ctx, cancel := coresim.Ctx(150 * time.Second)
@@ -580,11 +605,11 @@ func c14StartPhase(c *vlib.Ctx, s *coresim.Sim, sc *c14Scenario, envID string, c
 				got, present := cmd.Arguments[k]
 				switch {
 				case okL && !present:
-					viol("start-arguments", label(wantL, srcL), "absent", fmt.Sprintf("task %s: START arguments lack %s although the root role resolves lhc_period from %s", t.RolePath, k, srcL))
+					violAt("start-arguments", "lhc_period", srcL, label(wantL, srcL), "", false, "absent", fmt.Sprintf("task %s: START arguments lack %s although the root role resolves lhc_period from %s", t.RolePath, k, srcL))
 				case !okL && present:
-					viol("start-arguments", "undefined", c14Decode(sc, root, "lhc_period", got), fmt.Sprintf("task %s: START arguments carry %s=%q although nothing visible at the root role defines lhc_period", t.RolePath, k, got))
+					violAt("start-arguments", "lhc_period", "undefined", "undefined", got, true, c14Decode(sc, root, "lhc_period", got), fmt.Sprintf("task %s: START arguments carry %s=%q although nothing visible at the root role defines lhc_period", t.RolePath, k, got))
 				case okL && got != wantL[0]:
-					viol("start-arguments", label(wantL, srcL), c14Decode(sc, root, "lhc_period", got), fmt.Sprintf("task %s: START argument %s is %q; the highest-ranking definition at the root role is %s = %q", t.RolePath, k, got, srcL, wantL[0]))
+					violAt("start-arguments", "lhc_period", srcL, label(wantL, srcL), got, true, c14Decode(sc, root, "lhc_period", got), fmt.Sprintf("task %s: START argument %s is %q; the highest-ranking definition at the root role is %s = %q", t.RolePath, k, got, srcL, wantL[0]))
 				}
 				if okL {
 					c.Count("start_argument_values_compared", 1)
@@ -634,10 +659,11 @@ func c14StartPhase(c *vlib.Ctx, s *coresim.Sim, sc *c14Scenario, envID string, c
 					if gok {
 						gs = c14Decode(sc, root, key, got)
 					}
+					wlabel := wsrc
 					if wok && want == "" {
-						wsrc += "(empty)"
+						wlabel += "(empty)"
 					}
-					viol(l.name, wsrc, gs, fmt.Sprintf("GetEnvironment %s: %s[%s] is %q (present=%v); by the sources of that kind it should be %q (present=%v, from %s)", when, l.name, key, got, gok, want, wok, wsrc))
+					violAt(l.name, key, wsrc, wlabel, got, gok, gs, fmt.Sprintf("GetEnvironment %s: %s[%s] is %q (present=%v); by the sources of that kind it should be %q (present=%v, from %s)", when, l.name, key, got, gok, want, wok, wsrc))
 				}
 			}
 		}
@@ -700,11 +726,11 @@ func c14StartPhase(c *vlib.Ctx, s *coresim.Sim, sc *c14Scenario, envID string, c
 				}
 			}
 			if !found {
-				viol("call", src, "missing", fmt.Sprintf("call role %s (%s): result %q has no value for %s", cr.path, cr.CallTrigger, out, key))
+				violAt("call", key, src, src, "", false, "missing", fmt.Sprintf("call role %s (%s): result %q has no value for %s", cr.path, cr.CallTrigger, out, key))
 				continue
 			}
 			if len(want) == 0 || got != want[0] {
-				viol("call", label(want, src), c14Decode(sc, cr, key, got), fmt.Sprintf("call role %s at %s sees %s = %q (from %s); the highest-ranking definition is %s with value %q", cr.path, cr.CallTrigger, key, got, c14Decode(sc, cr, key, got), src, want))
+				violAt("call", key, src, label(want, src), got, true, c14Decode(sc, cr, key, got), fmt.Sprintf("call role %s at %s sees %s = %q (from %s); the highest-ranking definition is %s with value %q", cr.path, cr.CallTrigger, key, got, c14Decode(sc, cr, key, got), src, want))
 			}
 		}
 	}
